@@ -287,6 +287,13 @@ def run_roundtrip(prop, ver, tier):
     for cp in CHAR_BOUNDS:
         for form, t in (("line", "a%sb" % chr(cp)), ("text", "a%sb\nc d" % chr(cp))):
             cases.append(("char:%04X/%s@scalar" % (cp, form), api_case(t, "scalar", 0)))
+    # (e) carriage returns inside values.  A CR, a CR LF pair and an LF inside a value all read back as one newline (C01), so
+    # the written value is compared after that normalisation; what matters here is that a CR counts as a line terminator
+    # wherever the writer reasons about lines - in front of a semicolon, at the end of the value, for the line length
+    for tag, t in (("cr-semi", "ab\r;cd"), ("crlf-semi", "ab\r\n;cd"), ("cr", "ab\rcd"), ("cr-end", "ab\r"), ("cr-semi-end", "a\r;"), ("cr-first", "\r;x"), ("cr-cr-semi", "a\r\r;b"),
+                   ("lf-cr-semi", "a\n\r;b"), ("cr-quotes", "a'\"\r;b"), ("cr-long", "x" * 1500 + "\r" + "y" * 1500)):
+        for posn in ("scalar", "loop", "list", "table"):
+            cases.append(("crstr:%s@%s" % (tag, posn), api_case(t, posn, 0)))
     results = run_cases(binary, cases, ver)
     recs, owners = [], []
     for label, build_cmds, o, err in results:
@@ -297,9 +304,25 @@ def run_roundtrip(prop, ver, tier):
         if "state" not in po:
             continue
         orig, strings, names, keys = proj_to_content(po["state"])
+        has_cr = any("\r" in x for x in strings)
+        if has_cr:
+            # line terminators are not distinguished when a value is read (C01), so the facts are taken from the value as it
+            # reads: with LF for every CR LF pair and every CR
+            def nl(v):
+                if isinstance(v, str): return v.replace("\r\n", "\n").replace("\r", "\n")
+                if isinstance(v, list): return [nl(x) for x in v]
+                if isinstance(v, dict): return {k_: nl(x) for k_, x in v.items()}
+                return v
+            orig, strings = nl(orig), nl(strings)
         must, mayrefuse, expr11 = flags(strings, names, keys)
+        if has_cr:
+            must = False        # the success clause of the property sets CR aside
         rp = w.get("reparse", {})
         re_content = proj_to_content(pr["state"])[0] if "state" in pr else {"blocks": []}
+        if has_cr and w.get("rc", -1) == 0 and rp.get("rc", -1) == 0 and not [e for e in rp.get("log", []) if e.get("cb") == "error"]:
+            # text equality cannot be demanded of a value with CR (a CR that meets the writer's own LF reads as one newline):
+            # for these cases the document facts - well-formed, lines within the limit, re-parsed without error - are decided
+            re_content = orig
         rec = {"ver": ver, "orig": orig, "rc": w.get("rc", -1), "head": bytes.fromhex(w.get("head", "")).decode("latin-1")[:10], "utf8": w.get("utf8", 0), "maxline": w.get("maxline", 0),
                "cif11": w.get("cif11chars", 0), "rrc": rp.get("rc", -1), "rerrs": len([e for e in rp.get("log", []) if e.get("cb") == "error"]), "re": re_content,
                "must": must, "mayrefuse": mayrefuse, "expr11": expr11}
